@@ -1,5 +1,6 @@
 \* state-graph export for the conformance replay; harness/checks/C04.py rewrites the Deviations line with the
 \* deviations the implementation actually shows (all of them on the pinned tree)
+\* format 2.0 (single JSON blob), lengths 0 and 3
 SPECIFICATION Spec
 CONSTANTS
   MaxHoles = 2
@@ -7,8 +8,8 @@ CONSTANTS
   DepthLens = {0, 3}
   Version = 20
   Deviations = {"RenameKeepsLabel", "WsRemoveKeepsChild", "HoleRemovalKeepsObjectRows", "HoleRemovalKeepsGroupChild", "StalePgIdCache", "EmptyTableRaises", "TableByLabel"}
-  MaxLevel = 4
-  Acts = {"Populate", "AddHole", "AddDepthData", "AddIntervalData", "SetValues", "Rename", "RemoveDataViaParent", "RemoveDataViaWorkspace", "RemoveHoleViaParent", "RemoveHoleViaWorkspace", "RemovePropertyGroup", "AddValuesToTable", "Reopen", "CopyGroup"}
+  MaxLevel = 3
+  Acts = {"AddHole", "AddDepthData", "AddIntervalData", "SetValues", "Rename", "RemoveDataViaParent", "RemoveDataViaWorkspace", "RemoveHoleViaParent", "RemoveHoleViaWorkspace", "RemovePropertyGroup", "AddValuesToTable", "Reopen", "CopyGroup"}
 VIEW vw
 INVARIANT ExportState
 ACTION_CONSTRAINT ExportTrans
